@@ -362,8 +362,11 @@ func TestExhaustiveTokens(t *testing.T) {
 // length around the 247-byte boundary.
 func randomTarget(rt *rapid.T) string {
 	pool := []string{
-		"n", "x", "name", "..", "..", "..", ".", "", "é", "a b", "...", "..x", ".x",
-		"c:", "a:b", ":", "a\\b", "\\", "..\\..", "~", "-", "nul",
+		"n", "x", "name", "n", "x", "é", "a b", "...", "..x", ".x", "~", "-", "nul",
+		"..", "..", "..", "..", "..", "..", "..", "..",
+		".", ".", ".",
+		"", "", "", "", "",
+		"c:", "a:b", ":", "a\\b", "\\", "..\\..",
 	}
 	var target string
 	switch rapid.IntRange(0, 9).Draw(rt, "shape") {
@@ -407,7 +410,7 @@ func TestRandomTargets(t *testing.T) {
 	rec := ev.New(t, prop, "random-targets",
 		"rapid: targets of 1..9 components drawn from names, '.', '..', empty, colon-, backslash- and multi-byte-containing names, optional leading '/', plus targets padded to 240..256 bytes; link depth 0..3; mode scan or transition on a real temp directory; "+rule)
 	_, known := reportKnownIfListed(t, rec)
-	ev.Check(t, rec, 3000, 40000, func(rt *rapid.T) {
+	ev.Check(t, rec, 5000, 40000, func(rt *rapid.T) {
 		c := &Case{
 			Mode:   rapid.SampledFrom([]string{"scan", "transition"}).Draw(rt, "mode"),
 			Depth:  rapid.IntRange(0, 3).Draw(rt, "depth"),
